@@ -57,7 +57,10 @@ pub fn replay(line: &str, out: &mut Out) {
     // a replayed line is judged as well-formed unless it is one of the malformed shapes below
     let p = Prog::parse(line);
     let mal = line.contains("MALFORMED");
-    record(&p, !mal, "replay", out);
+    // a replayed FD program that lost a domain (a shrunk case) is not well-formed: `verify_all_bound` panics on any tree
+    let has_fd = line.contains("fd ");
+    let wf = !mal && (!has_fd || crate::fdgen::fd_well_formed(&p));
+    record(&p, wf, "replay", out);
 }
 
 fn clpz_prog(r: &mut Rng) -> Prog {
